@@ -198,11 +198,11 @@ fn make_msg(al: &Alphabet, i: usize, a: &Arr, var: Variant) -> TimedMessage {
     let t = var.base_s as f64 + a.ms as f64 / 1e3;
     // in the multi variant receiver 1 is a GNSS-disciplined receiver: its receptions also carry its own clock, 17.5 s off
     let gnss = if var.multi && a.rx == 0 { Some(t + 17.5) } else { None };
-    let mut metadata = vec![SensorMetadata { system_timestamp: t, gnss_timestamp: gnss, nanoseconds: Some(i as u64), rssi: None, serial: a.rx as u64 + 1, name: None }];
+    let mut metadata = vec![SensorMetadata { system_timestamp: t, gnss_timestamp: gnss, nanoseconds: Some(i as u64), rssi: None, serial: a.rx as u64 + 1, name: None, ..Default::default() }];
     if var.multi && a.rx == 1 {
-        metadata.push(SensorMetadata { system_timestamp: t, gnss_timestamp: None, nanoseconds: Some(i as u64 + SECOND), rssi: None, serial: 9, name: None });
+        metadata.push(SensorMetadata { system_timestamp: t, gnss_timestamp: None, nanoseconds: Some(i as u64 + SECOND), rssi: None, serial: 9, name: None, ..Default::default() });
     }
-    TimedMessage { timestamp: t, frame: al.frames[a.frame as usize].clone(), message: None, metadata, decode_time: None }
+    TimedMessage { timestamp: t, frame: al.frames[a.frame as usize].clone(), message: None, metadata, decode_time: None, ..Default::default() }
 }
 
 /// The same history, but driven by a real runtime with WALL-CLOCK pauses: after arrival `pause_after` nothing is sent
